@@ -260,3 +260,70 @@ Example c17_er_nonvacuous :
   /\ er_batches (fun _ => lev 1 1 1) [(TInt 5, TInt 4)] [TInt 9] false 4 2 0 [] refs hyps
      = [([97], 1, 3); ([98], 1, 0); ([99], 0, 2)].
 Proof. cbv zeta. split; [apply lev_rename_invariant|split; vm_compute; reflexivity]. Qed.
+
+(* ==================================================================================================== *)
+(* SOURCE TIE.  The statements below are about the PYTHON TEXT of the per-file workers of command_line.py: *)
+(* PV.Gen.C17Src.* are the MiniPy terms that harness/py2coq/translate.py regenerates from /repo on every  *)
+(* run; PV.MiniPy.Interp is their semantics; torch calls mean what PV.MiniTorch.OpsC17 says, the file      *)
+(* system is data and torch.save is an emitted event (C17.SrcRun.ext17).  Proofs: C17/TieAli.v, Tie*.v.    *)
+(* ==================================================================================================== *)
+From Coq Require Import String.    (* from here on [length] is String.length: lists use List.length *)
+From PV Require MiniPy.Syntax MiniPy.Interp C17.SrcRun C17.TieLib C17.TieAli C17.Tie.
+
+(* _torch_ali_dir_to_torch_token_dir_do_work: for every file system holding the alignment [v] at
+   os.path.join(ali_dir, basename), the interpreted worker returns None and its only effect is
+   torch.save(the model's (R, 3) segments, os.path.join(ref_dir, basename)) *)
+Theorem c17_source_ali2tok_is_model : forall fs b ad rd v,
+  Interp.dict_get fs (SrcRun.path ad b) = Some (SrcRun.enc_tensor (Vec v)) ->
+  exists st, SrcRun.run_ali2tok fs b ad rd = Interp.Ok Syntax.VNone st
+             /\ Interp.events st = [SrcRun.save_event (SrcRun.enc_tensor (Mat 3 (segs 0 (rle v)))) (SrcRun.path rd b)].
+Proof. exact TieAli.ali2tok_tie. Qed.
+Print Assumptions c17_source_ali2tok_is_model.
+
+(* _torch_token_data_dir_to_torch_ali_dir_do_work: for every well-formed stored tensor (vector, or matrix of any
+   width and height), with --feat-dir absent / given with the feature file missing / present, the interpreted
+   worker does what Model.ali_of_ref_feat says: saves the expanded alignment and nothing else, or raises the
+   model's exception (ValueError for each of the four guards and the length check in code order, FileNotFoundError,
+   RuntimeError for a negative repeat count) before any effect *)
+Theorem c17_source_tok2ali_is_model : forall fs b rd ad fdv fl n t,
+  SrcRun.wf_tensor t -> Interp.dict_get fs (SrcRun.path rd b) = Some (SrcRun.enc_tensor t) ->
+  TieAli.feat_env fs b fdv fl ->
+  TieLib.worker_outcome (SrcRun.run_tok2ali fs b rd ad fdv) (SrcRun.path ad b)
+                        (ali_of_ref_feat (SrcRun.feats_of n fl) n t).
+Proof. exact Tie.tok2ali_tie_model. Qed.
+Print Assumptions c17_source_tok2ali_is_model.
+
+(* COMPOSED with c17_ali_of_ref_of_ali - purely about the interpreted source: converting a non-empty alignment to
+   tokens and converting what was saved back returns the alignment *)
+Theorem c17_source_ali_roundtrip : forall v, v <> [] ->
+  forall fs b ad rd, Interp.dict_get fs (SrcRun.path ad b) = Some (SrcRun.enc_tensor (Vec v)) ->
+  exists x, (exists st, SrcRun.run_ali2tok fs b ad rd = Interp.Ok Syntax.VNone st
+                        /\ Interp.events st = [SrcRun.save_event x (SrcRun.path rd b)])
+    /\ forall fs' ad', Interp.dict_get fs' (SrcRun.path rd b) = Some x ->
+         Tie.saves (SrcRun.run_tok2ali fs' b rd ad' Syntax.VNone) (Vec v) (SrcRun.path ad' b).
+Proof. exact Tie.source_ali_roundtrip. Qed.
+Print Assumptions c17_source_ali_roundtrip.
+
+(* COMPOSED with c17_ali_of_ref_accepts_iff_partition and c17_rle_encode_decode: tokens -> ali -> tokens returns the
+   tokens for contiguous, start-0 (partitions_from 0), adjacent-distinct, positive-length (maximal) segments *)
+Theorem c17_source_tokens_roundtrip : forall rows T, rows <> [] -> partitions_from 0 rows T -> maximal rows ->
+  forall fs b rd ad, Interp.dict_get fs (SrcRun.path rd b) = Some (SrcRun.enc_tensor (Mat 3 rows)) ->
+  exists x, (exists st, SrcRun.run_tok2ali fs b rd ad Syntax.VNone = Interp.Ok Syntax.VNone st
+                        /\ Interp.events st = [SrcRun.save_event x (SrcRun.path ad b)])
+    /\ forall fs' rd', Interp.dict_get fs' (SrcRun.path ad b) = Some x ->
+         Tie.saves (SrcRun.run_ali2tok fs' b ad rd') (Mat 3 rows) (SrcRun.path rd' b).
+Proof. exact Tie.source_tokens_roundtrip. Qed.
+Print Assumptions c17_source_tokens_roundtrip.
+
+(* the interpreted worker accepts exactly the partitions and raises (ValueError / RuntimeError, no effect) exactly
+   when a guard fails *)
+Theorem c17_source_tok2ali_accepts_iff_partition : forall fs b rd ad rows,
+  Forall (fun r => List.length r = 3%nat) rows ->
+  Interp.dict_get fs (SrcRun.path rd b) = Some (SrcRun.enc_tensor (Mat 3 rows)) ->
+  (Tie.saves (SrcRun.run_tok2ali fs b rd ad Syntax.VNone) (Vec (expand_rows rows)) (SrcRun.path ad b)
+     <-> (rows <> [] /\ exists n, partitions_from 0 rows n))
+  /\ (~ (rows <> [] /\ exists n, partitions_from 0 rows n) ->
+      Tie.raises (SrcRun.run_tok2ali fs b rd ad Syntax.VNone) "ValueError"%string
+      \/ Tie.raises (SrcRun.run_tok2ali fs b rd ad Syntax.VNone) "RuntimeError"%string).
+Proof. exact Tie.source_tok2ali_accepts_iff_partition. Qed.
+Print Assumptions c17_source_tok2ali_accepts_iff_partition.
